@@ -89,6 +89,10 @@ func (s *Sim) checkStore(after string) {
 			if U[tp].IsRel {
 				tg := u.GetRelation(h, id)
 				want := s.handleOf(e.Tgt[tp])
+				if ep, ok := s.rejTargets[tg]; ok && tg != want && ep == s.M.Epoch {
+					s.violate("C07", "lock.blocks", "callback_same_mapper/effect", true, "after %s entity label %d relation T%02d has target %v, expected %v (label %d): %v was the target given to a SetRelationsBatch from whose callback a rejected SetRelations was called on the same mapper", after, l, tp, tg, want, e.Tgt[tp], tg)
+					return
+				}
 				if tg != want {
 					s.violate("C04", "rel.target", after, true, "after %s entity label %d relation T%02d has target %v, expected %v (label %d)", after, l, tp, tg, want, e.Tgt[tp])
 					return
